@@ -84,7 +84,7 @@ HARNESSES = [
     dict(name="newsize_real", src="newsize.c", defs=["REAL_HAS_SUPER"],
          funcs=["adjust_new_size", "adjust_fs_info", "ext2fs_bg_has_super", "test_root"],
          extra_src=["lib/ext2fs/closefs.c", "lib/ext2fs/blknum.c"],
-         configs=[{"CHECK": 2, "LOGBS": 0, "BPG": 8192, "DESC": 32, "SBITS": 24, "_tier": "thorough"},
+         configs=[{"CHECK": 2, "LOGBS": 0, "BPG": 8192, "DESC": 32, "SBITS": 24},
                   {"CHECK": 1, "LOGBS": 0, "BPG": 8192, "DESC": 32, "SBITS": 24, "IPG": 8192, "_tier": "thorough"}],
          unwind=4, unwindset=NS_UW + ["test_root.0:9"],
          backends=["default"], cap_thorough=1200,
